@@ -18,6 +18,7 @@ OPEN = [
 
 # commit subject prefix -> (properties, what failed before the fix)
 FIXED = {
+ "the HTFC constructor's look-ahead for the chunk that ends a bucket header": (["C01", "C03", "C07", "C08", "C18"], "HTFC constructor: same past-the-end look-ahead as in HHTFC (the chunk that ends the last bucket's header was indexed with uninitialised heap bytes); witness: 130 strings `stem+{a,b,c}` over c..p, bucket size 4, heap fill byte 0xBE: extract(401 of the original 402-string set) crashed in DecodingTable::getSubstring (found by C07 at seed 7)"),
  "the HHTFC constructor's look-ahead for the chunk that ends a bucket header": (["C01", "C03", "C07", "C08", "C18"], "HHTFC constructor read the front-coded text past its last byte while registering the chunk that ends the last bucket's header (short last bucket: header + tiny internal strings, e.g. 2000 random stems x suffixes a/b with bucket size 2): the chunk index depended on uninitialised heap bytes, so extract of the last strings crashed or the image differed between heap fill patterns"),
  "pass the whole compacted sequence to DAC_VLS": (["C01", "C03", "C07", "C17", "C20"], "RPDAC/HASHRPDAC/blocks: last string dropped (wrong/missing answers, heap over-read) when it compresses to one symbol; e.g. {a,ab,abc..,z}"),
  "DAC_VLS::access must not follow": (["C01", "C07", "C17"], "DAC_VLS::access heap overflow when the longest sequence has one symbol (e.g. dictionary {a})"),
